@@ -1060,7 +1060,15 @@ EXPORT errno_t _wcsnorm_compose_s_chk(wchar_t *restrict dest, rsize_t dmax,
             }
         }
 
-        /* output */
+        /* output: the starter, the cc_pos queued marks, and room for the
+           terminator must be left */
+        if (unlikely(dmax <= cc_pos + 1)) {
+            handle_werror(orig_dest, orig_dmax,
+                          "wcsnorm_compose_s: "
+                          "dmax too small",
+                          ESNOSPC);
+            return RCNEGATE(ESNOSPC);
+        }
         _ENC_W16(dest, dmax, cpS); /* starter (composed or not) */
         if (unlikely(!dmax)) {
             handle_werror(orig_dest, orig_dmax,
